@@ -17,7 +17,8 @@ from allmydata.interfaces import RIStorageServer, IStatsProducer
 from allmydata.util import fileutil, idlib, log, time_format
 import allmydata # for __full_version__
 
-from allmydata.storage.common import si_b2a, si_a2b, storage_index_to_dir
+from allmydata.storage.common import si_b2a, si_a2b, storage_index_to_dir, \
+     DataTooLargeError
 _pyflakes_hush = [si_b2a, si_a2b, storage_index_to_dir] # re-exported
 from allmydata.storage.lease import LeaseInfo
 from allmydata.storage.mutable import MutableShareFile, EmptyShare, \
@@ -676,6 +677,13 @@ class StorageServer(service.MultiService):
         )
 
         if testv_is_good:
+            # a write we could not carry out must fail the request as a
+            # whole, before any other of its writes has been applied
+            for (testv, datav, new_length) in test_and_write_vectors.values():
+                for (offset, data) in datav:
+                    if offset + len(data) > MutableShareFile.MAX_SIZE:
+                        raise DataTooLargeError()
+
             # now apply the write vectors
             remaining_shares = self._evaluate_write_vectors(
                 bucketdir,
